@@ -798,6 +798,23 @@ def oracle_case(c, num, tol):
                             return "txt 2-D: entry (line %d, column %d) is not control point (u=%d, v=%d)" % (i, j, i, j)
             if not _same_pts(got, want, tol):
                 return "%s: control points read back differ from the stored ones" % k[:-2]
+            # the documented delimiter options: a file written with custom delimiters uses them and reads back
+            if k in ('txt-w', 'txt2-w'):
+                two = (k == 'txt2-w') or s['kind'] == 'curve'
+                fn2 = os.path.join(tmp, 'b.txt')
+                exchange.export_txt(o, fn2, two_dimensional=two, separator='|', col_separator='@')
+                txt2 = open(fn2).read()
+                if ',' in txt2 or ';' in txt2:
+                    return "txt: a file written with separator='|', col_separator='@' still contains ',' or ';'"
+                back = exchange.import_txt(fn2, two_dimensional=two, separator='|', col_separator='@')
+                if two and s['kind'] != 'curve':
+                    back, su2, sv2 = back
+                    if [su2, sv2] != s['size']:
+                        return "txt 2-D with custom delimiters: sizes %s come back, exported %s" % ([su2, sv2], s['size'])
+                elif two:
+                    back = back[0] if (isinstance(back, tuple) and len(back) == 3) else back
+                if not _same_pts(back, want, tol):
+                    return "txt with custom delimiters: control points read back differ from the stored ones"
             # the points read back define the same shape
             o2 = build(dict(s, trims=[]), num)
             if s['kind'] == 'curve':
